@@ -124,13 +124,20 @@ pub fn set_error_detail(enabled: bool) {
 #[derive(Debug)]
 struct CallLimitTracker {
     current_call_limit: Option<(usize, usize)>,
+    /// Set once a call has been refused because the limit was reached. A refusal can be
+    /// swallowed by `optional`, `repeat`, a negative `lookahead` or an `or_else` chain, so it
+    /// has to be remembered for the final result to be reported as "call limit reached".
+    call_refused: bool,
 }
 
 impl Default for CallLimitTracker {
     fn default() -> Self {
         let limit = CALL_LIMIT.load(Ordering::Relaxed);
         let current_call_limit = if limit > 0 { Some((0, limit)) } else { None };
-        Self { current_call_limit }
+        Self {
+            current_call_limit,
+            call_refused: false,
+        }
     }
 }
 
@@ -511,13 +518,13 @@ where
     let state = ParserState::new(input);
 
     match f(state) {
-        Ok(state) => {
+        Ok(state) if !state.call_tracker.call_refused => {
             #[cfg(feature = "verif-hooks")]
             verif::record(&state);
             let len = state.queue.len();
             Ok(new(Rc::new(state.queue), input, None, 0, len))
         }
-        Err(mut state) => {
+        Ok(mut state) | Err(mut state) => {
             #[cfg(feature = "verif-hooks")]
             verif::record(&state);
             let variant = if state.reached_call_limit() {
@@ -628,6 +635,7 @@ impl<'i, R: RuleType> ParserState<'i, R> {
     #[inline]
     fn inc_call_check_limit(mut self: Box<Self>) -> ParseResult<Box<Self>> {
         if self.call_tracker.limit_reached() {
+            self.call_tracker.call_refused = true;
             return Err(self);
         }
         self.call_tracker.increment_depth();
@@ -636,7 +644,7 @@ impl<'i, R: RuleType> ParserState<'i, R> {
 
     #[inline]
     fn reached_call_limit(&self) -> bool {
-        self.call_tracker.limit_reached()
+        self.call_tracker.call_refused || self.call_tracker.limit_reached()
     }
 
     /// Wrapper needed to generate tokens. This will associate the `R` type rule to the closure
